@@ -297,6 +297,8 @@ where
     if cases == 0 {
         return res;
     }
+    // only the checks that talk to the host file system need the retry rule
+    let retry_flaky = matches!(prop_id, "C05" | "C06" | "C08" | "C10" | "C11" | "C15" | "C16" | "C18");
     let seed = mix(mix(w.seed, fnv(prop_id.as_bytes())), mix(fnv(kind.as_bytes()), w.idx as u64));
     let cfg = Config {
         cases: cases as u32,
@@ -318,6 +320,7 @@ where
         nt_samples: Vec<Value>,
         excluded: BTreeMap<String, u64>,
         failed: bool,
+        first: Option<(Fail, Value)>,
     }
     let st = RefCell::new(St {
         evaluations: 0,
@@ -327,6 +330,7 @@ where
         nt_samples: vec![],
         excluded: BTreeMap::new(),
         failed: false,
+        first: None,
     });
     let eval = |c: &C| -> (Outcome, Vec<Fail>) {
         let mut out = match guarded(|| run(c)) {
@@ -337,7 +341,20 @@ where
                 fails: vec![f],
             },
         };
-        let fails = std::mem::take(&mut out.fails);
+        let mut fails = std::mem::take(&mut out.fails);
+        if !fails.is_empty() && retry_flaky {
+            // Environment-dependent outcomes (e.g. the host kernel answering ENOMEM to one call under
+            // load) must not raise an alarm: a failure counts only if it shows again when the very
+            // same case is evaluated a second time. Retries that passed are counted in the evidence.
+            let again = match guarded(|| run(c)) {
+                Ok(mut o) => std::mem::take(&mut o.fails),
+                Err(f) => vec![f],
+            };
+            if again.is_empty() {
+                out.classes.push("engine:failure-not-reproduced-on-immediate-retry".into());
+                fails.clear();
+            }
+        }
         (out, fails)
     };
     let r = runner.run(&strat, |c| {
@@ -380,6 +397,9 @@ where
                 }
             }
             if !unknown.is_empty() {
+                if !s.failed {
+                    s.first = Some((unknown[0].clone(), serde_json::to_value(&c).unwrap_or(Value::Null)));
+                }
                 s.failed = true;
             }
         }
@@ -400,16 +420,21 @@ where
         Ok(()) => {}
         Err(TestError::Fail(_reason, shrunk)) => {
             let (_o, fails) = eval(&shrunk);
-            let f = fails
-                .into_iter()
-                .find(|f| w.known.is_known(prop_id, &f.sig).is_none())
-                .unwrap_or_else(|| Fail::new("unstable", "failure did not reproduce on the shrunk case"));
-            res.violation = Some(Violation {
-                sig: f.sig,
-                msg: f.msg,
-                kind: kind.to_string(),
-                case: serde_json::to_value(&shrunk).unwrap_or(Value::Null),
-            });
+            match fails.into_iter().find(|f| w.known.is_known(prop_id, &f.sig).is_none()) {
+                Some(f) => {
+                    res.violation = Some(Violation { sig: f.sig, msg: f.msg, kind: kind.to_string(), case: serde_json::to_value(&shrunk).unwrap_or(Value::Null) });
+                }
+                None => {
+                    // the shrunk case passes when re-run: report the original failing case instead
+                    let (f, case) = s.first.clone().unwrap_or((Fail::new("unstable", "failure did not reproduce"), Value::Null));
+                    res.violation = Some(Violation {
+                        sig: f.sig,
+                        msg: format!("{} [note: not reproducible on the shrunk case; this is the original failing case]", f.msg),
+                        kind: kind.to_string(),
+                        case,
+                    });
+                }
+            }
         }
         Err(TestError::Abort(reason)) => {
             res.violation = Some(Violation {
